@@ -219,6 +219,23 @@ pub fn run(mut run: Run) -> i32 {
                     if l.is_ccw() != (a2 > 0) || l.is_cw() != (a2 < 0) {
                         acc.viol("is_ccw/is_cw inconsistent with exact area".into(), idx, || json!({"ring": format!("{:?}", l)}));
                     }
+                    // integer instantiations far from the origin (the coordinate differences are small, so every product fits the type)
+                    if dup.is_none() && off == (0.0, 0.0) && rot % 2 == 0 {
+                        use geo::winding_order::WindingOrder as W;
+                        let ww = |w: Result<Option<W>, String>| match w { Ok(Some(W::CounterClockwise)) => "ccw".to_string(), Ok(Some(W::Clockwise)) => "cw".to_string(), Ok(None) => "none".to_string(), Err(e) => format!("panic: {}", e) };
+                        let exp = if a2 > 0 { "ccw" } else { "cw" };
+                        let mut vc = v.clone();
+                        vc.push(v[0]);
+                        let r16 = LineString::<i16>::new(vc.iter().map(|p| Coord { x: p.0 as i16 + 20000, y: p.1 as i16 - 20000 }).collect());
+                        let r32 = LineString::<i32>::new(vc.iter().map(|p| Coord { x: p.0 as i32 + 100_000_000, y: p.1 as i32 - 100_000_000 }).collect());
+                        let r64 = LineString::<i64>::new(vc.iter().map(|p| Coord { x: p.0 + 3_000_000_000, y: p.1 - 3_000_000_000 }).collect());
+                        acc.evals += 3;
+                        for (name, got) in [("i16 at 20000", ww(guard(|| r16.winding_order()))), ("i32 at 1e8", ww(guard(|| r32.winding_order()))), ("i64 at 3e9", ww(guard(|| r64.winding_order())))] {
+                            if got != exp {
+                                acc.viol(format!("winding_order of an integer ring far from the origin ({}) expected {} got {}", name, exp, got.split(':').next().unwrap()), idx, || json!({"ring": format!("{:?}", l), "type_and_offset": name, "got": got}));
+                            }
+                        }
+                    }
                     // the same ring with zero coordinates written as -0.0 (all of them / every other one): -0.0 == 0.0, so nothing may change
                     if dup.is_none() && off == (0.0, 0.0) {
                         for pattern in 0..3usize {
